@@ -33,15 +33,23 @@ def run(ctx):
         sampled4 = min(len(c4), 5000)
         picked = picked + c4[:sampled4]      # 4 concurrent requests: a VERIF_SEED sample of the 65k histories
     traces, results = lc.run_sharded(ctx, "c10", picked, shards=12 if q else 14)
+    # TCP proxy part: connection accounting of the stream proxy over open/close histories
+    rawt = os.path.join(ctx.tmp, "tcpops.jsonl")
+    ctx.add_tlc(vlib.run_tlc(ctx, "cluster", "BreakerOps", "BreakerTcpOps.cfg", workers=1, cases_to=rawt))
+    tcases = vlib.read_jsonl(rawt)
+    rng.shuffle(tcases)
+    tpicked = tcases[:96] if q else tcases
+    ttraces, _ = lc.run_sharded(ctx, "c10", tpicked, shards=12 if q else 14, extra_args=["-mode", "tcp"], tag="_tcp")
+    traces = traces + ttraces
     allp = os.path.join(ctx.tmp, "c10_all.ndjson")
     with open(allp, "w") as fo:
         for t in traces:
             fo.write(open(t).read())
     evs = vlib.read_jsonl(allp)
     v = vlib.validate_trace(ctx, "cluster", "BreakerTrace", "BreakerTrace.cfg", allp, timeout=1200)
-    nruns = sum(1 for e in evs if e["ev"] == "run")
+    nruns = sum(1 for e in evs if e["ev"] in ("run", "trun"))
     ctx.cov["traces_validated_against_impl"] += nruns
-    ctx.cov["evaluations"] += sum(1 for e in evs if e["ev"] in ("sample", "trip"))
+    ctx.cov["evaluations"] += sum(1 for e in evs if e["ev"] in ("sample", "trip", "tsample", "topen"))
     ctx.cov["distinct_nontrivial"] = nruns
     ctx.cov["states"] += v["distinct"]; ctx.cov["transitions"] += v["generated"]
     first_end = next((i for i, e in enumerate(evs) if e["ev"] == "sample" and e.get("why") == "end"), 10)
@@ -51,7 +59,7 @@ def run(ctx):
         raise vlib.Inconclusive("trace validation did not complete:\n" + v["text"][-1500:])
     run_at, cur, start = {}, None, 0
     for i, e in enumerate(evs, 1):
-        if e["ev"] == "run":
+        if e["ev"] in ("run", "trun"):
             cur, start = e, i
         run_at[i] = (cur, start)
     def fail(line, kind):
@@ -62,7 +70,9 @@ def run(ctx):
         if kind.startswith("retries"):
             thr = "max_retries=%s" % (runev or {}).get("maxretry")
         sig = "C10:%s:%s" % (kind, thr)
-        end = next((j for j in range(line, len(evs) + 1) if evs[j - 1]["ev"] == "sample" and evs[j - 1].get("why") == "end"), line)
+        if kind.startswith("tcp-"):
+            sig = "C10:%s:%s" % (kind, e.get("cluster", ""))
+        end = next((j for j in range(line, len(evs) + 1) if evs[j - 1]["ev"] in ("run", "trun") and j > line), min(len(evs), line + 30))
         vlib.report_failure(ctx, sig, dict(event=e, after=why, run=runev, run_trace=evs[st - 1:end]))
     for line, kinds in sorted(mm.items()):
         for k in sorted(kinds):
